@@ -7,17 +7,26 @@
 // (a receive that reports an error must not have consumed a message).
 // Layer 2: the guarded shadow state in core/aio.c (nni_verif_fail) covers the
 // library's internal aios.  Perturbation: seeded jitter or one targeted site.
+// Variants per aio: nng_aio_skip_callback before every submission (exactly one
+// of {flag set, callback}), no callback at all (nng_aio_wait + the library's
+// completion events), timeout left to the owner (NNG_DURATION_DEFAULT + send /
+// receive timeout option, raised between submissions), nng_aio_set_expire, a
+// second terminating action from another thread, re-submission while
+// nng_aio_stop is in progress, one submission after nng_aio_stop returned.
+// Mode "grid": enumerated scenarios around one expiry batch (run_grid_case).
 #define _GNU_SOURCE
 #include "vfh.h"
 #include <pthread.h>
+#include <sched.h>
 #include <stdatomic.h>
 #include <unistd.h>
 
-enum { K_SLEEP, K_PROVIDER, K_SOCKRECV, K_CTXRECV, K_DIAL, K_ACCEPT, K_STREAMRECV, K_SOCKSEND, K_PROTORECV, K_PROTOSEND, K_REQSEND, K_STREAMDIAL, K_SURVRECV, K_NKINDS };
-static const char *kind_names[] = { "sleep", "provider", "sock-recv", "ctx-recv", "dial-aio", "stream-accept", "stream-recv", "sock-send", "proto-recv", "proto-send", "req-ctx-send", "stream-dial", "surveyor-recv" };
+enum { K_SLEEP, K_PROVIDER, K_SOCKRECV, K_CTXRECV, K_DIAL, K_ACCEPT, K_STREAMRECV, K_SOCKSEND, K_PROTORECV, K_PROTOSEND, K_REQSEND, K_STREAMDIAL, K_SURVRECV, K_REQRECV, K_STREAMSEND, K_DEVICE, K_NKINDS };
+static const char *kind_names[] = { "sleep", "provider", "sock-recv", "ctx-recv", "dial-aio", "stream-accept", "stream-recv", "sock-send", "proto-recv", "proto-send", "req-ctx-send", "stream-dial", "surveyor-recv", "req-ctx-recv", "stream-send", "device" };
 
 // K_PROTORECV / K_PROTOSEND: the receive / send path (and cancel function) of
-// further protocols; no conservation is demanded of these (lossy or fan-out)
+// further protocols; conservation is demanded of pull, pair0 and push (the
+// others are lossy or fan out)
 enum { PR_PULL, PR_SUB, PR_BUS, PR_PAIR0, PR_XREP, PR_N };
 static const char *pr_names[] = { "pull", "sub", "bus", "pair0", "xrep" };
 enum { PS_PUSH, PS_PAIR0, PS_XREQ, PS_N };
@@ -27,12 +36,13 @@ enum { A_NONE, A_CANCEL, A_ABORT, A_STOP, A_CLOSE, A_FREE, A_NACTS };
 static const char *act_names[] = { "none", "cancel", "abort", "stop", "close", "free" };
 
 #define ABORT_CODE NNG_EPERM
+#define SKIPN 48
 
 typedef struct arec {
 	nng_aio        *aio;
 	int             kind;
 	int             idx;
-	_Atomic int     n_submit, n_cb, in_cb;
+	_Atomic int     n_submit, n_cb, in_cb, in_inline;
 	_Atomic int     cancel_issued, abort_issued, stop_issued, close_issued;
 	_Atomic int     stop_returned, freed, free_issued;
 	_Atomic uint64_t t_submit;   // ns
@@ -49,6 +59,31 @@ typedef struct arec {
 	int             dwell_us;       // time the callback spends inside (widens "still running" windows)
 	bool            tmo_once;       // the aio's timeout is set once, at creation; resubmissions reuse it
 	_Atomic uint64_t surv_deadline; // K_SURVRECV: when the survey this receive belongs to expires (ns)
+	// cancel / abort calls: begun and returned; *_floor = calls that had already
+	// returned when the current submission began (those cannot legitimately
+	// end it: every public entry point resets the pre-start latch)
+	_Atomic int     cancels_begun, cancels_done, cancel_floor;
+	_Atomic int     aborts_begun, aborts_done, abort_floor;
+	_Atomic uint64_t t_prev_tmo_cb; // start of the previous callback of this aio that saw NNG_ETIMEDOUT
+	_Atomic uint64_t t_last_begin;  // hook: last start (begun or refused) of an operation on this aio
+	_Atomic uint64_t t_pick1, t_begin2; // hook: first pick by the expire loop, second start
+	_Atomic int     ev_begin, ev_finish, ev_refused, ev_expire, ev_starts; // hook events seen for this aio
+	_Atomic uint64_t gate_until;    // provider: its cancel function returns only once nng_clock() is past this
+	_Atomic int     post_stop;      // the submission after nng_aio_stop returned is in progress
+	bool            prestart_abort; // nng_aio_abort was called before the first submission
+	// variants
+	bool            skipv;          // nng_aio_skip_callback before every submission
+	bool            nocb;           // aio without callback: a waiter thread uses nng_aio_wait
+	bool            resub_in_stop;  // the callback re-submits also while nng_aio_stop is in progress
+	bool            dflt;           // NNG_DURATION_DEFAULT: the owner's send/receive timeout option applies
+	bool            use_expire;     // nng_aio_set_expire instead of nng_aio_set_timeout
+	bool            prov_sync;      // provider: some operations complete synchronously (finish without start)
+	volatile bool   skipflag[SKIPN]; // one flag per submission (a late write shows)
+	bool            skip_taken[SKIPN];
+	_Atomic int     n_started;      // submissions whose library call has returned
+	_Atomic int     waiter_quit;
+	pthread_t       waiter;
+	size_t          rx_off;         // K_STREAMRECV: stream offset the next received byte must have
 	// K_SOCKSEND: result of every submission (index = submission number)
 	int             send_rv[40];
 	_Atomic int     send_seq; // submission number of the message now attached
@@ -71,11 +106,23 @@ typedef struct casectx {
 	nng_stream *st_a, *st_b;
 	int         nrec;
 	arec        rec[8];
-	_Atomic int msgs_sent, msgs_recv_ok, msgs_recv_err_with_msg;
+	_Atomic int msgs_sent, msgs_recv_ok;
 	uint8_t     got[8][40]; // K_SOCKSEND: times (record, submission) was received by the peer
 	nng_stream *accepted[64];
 	_Atomic int naccepted;
 	uint8_t     rbuf[8][64];
+	bool        connected;        // the two sockets have a pipe (or will get one from the completer)
+	_Atomic int opt_ms[8];        // NNG_DURATION_DEFAULT: lower bound of the owner's timeout option now
+	int         opt_T2;           // ... raised to this before a re-submission
+	_Atomic int opt_raised[8];
+	uint8_t     sent_tag[64];     // proto-recv / ctx-recv conservation: tag accepted by the sending peer
+	uint8_t     recv_tag[64];     // ... times it was received
+	_Atomic long stream_sent;     // K_STREAMRECV: bytes the peer wrote
+	_Atomic long stream_recv_ok;  // ... bytes delivered by receives that completed with 0
+	_Atomic int stream_unknown;   // ... a write failed: how much of it went out is not known
+	nng_socket  dev1, dev2;       // K_DEVICE: the raw sockets the device joins
+	nng_socket  dpeer1, dpeer2;   // ... and their peers
+	nng_stream_dialer *isd;       // K_STREAMSEND over ipc
 } casectx;
 
 static pthread_mutex_t prov_mtx = PTHREAD_MUTEX_INITIALIZER;
@@ -85,18 +132,39 @@ static void sendlog_add(struct casectx *cx, nng_msg *m);
 static casectx *_Atomic cur_cx;
 
 // hook: remember when the expire loop picked one of our aios (its deadline had
-// passed at that moment).  Used only to name the window an early timeout came
-// through, not to decide whether it is a violation.
+// passed at that moment; the event is emitted under the queue lock right
+// before the loop drops it and calls the cancel function).  Used only to name
+// the window an early timeout came through, not to decide whether it is a
+// violation.  Also counts the start / finish events of each of our aios.
+static _Atomic uint64_t grid_anchor;     // grid mode: when the loop picked P
+static const void *_Atomic grid_anchor_aio;
 static void
 ev_hook(int ev, const void *obj, uintptr_t a, uintptr_t b)
 {
-	(void) a;
 	(void) b;
-	if (ev != NNI_VE_AIO_EXPIRE) return;
+	if (ev != NNI_VE_AIO_EXPIRE && ev != NNI_VE_AIO_BEGIN && ev != NNI_VE_AIO_REFUSED && ev != NNI_VE_AIO_FINISH) return;
 	casectx *cx = atomic_load(&cur_cx);
 	if (cx == NULL) return;
 	for (int i = 0; i < cx->nrec; i++) {
-		if ((const void *) cx->rec[i].aio == obj) atomic_store(&cx->rec[i].t_expire_pick, vf_now_ns());
+		arec *r = &cx->rec[i];
+		if ((const void *) r->aio != obj) continue;
+		switch (ev) {
+		case NNI_VE_AIO_EXPIRE:
+			(void) a;
+			atomic_store(&r->t_expire_pick, vf_now_ns());
+			if (atomic_fetch_add(&r->ev_expire, 1) == 0) atomic_store(&r->t_pick1, vf_now_ns());
+			if (obj == atomic_load(&grid_anchor_aio) && atomic_load(&grid_anchor) == 0) atomic_store(&grid_anchor, vf_now_ns());
+			break;
+		case NNI_VE_AIO_BEGIN:
+		case NNI_VE_AIO_REFUSED:
+			atomic_store(&r->t_last_begin, vf_now_ns());
+			if (atomic_fetch_add(&r->ev_starts, 1) == 1) atomic_store(&r->t_begin2, vf_now_ns());
+			atomic_fetch_add(ev == NNI_VE_AIO_BEGIN ? &r->ev_begin : &r->ev_refused, 1);
+			break;
+		case NNI_VE_AIO_FINISH:
+			atomic_fetch_add(&r->ev_finish, 1);
+			break;
+		}
 	}
 }
 static long            case_no;
@@ -111,6 +179,21 @@ sendlog_add(casectx *cx, nng_msg *m)
 	}
 	pthread_mutex_lock(&sendlog_mtx);
 	if (a < 8 && b < 40 && cx->got[a][b] < 200) cx->got[a][b]++;
+	pthread_mutex_unlock(&sendlog_mtx);
+	nng_msg_free(m);
+}
+
+// K_PROTOSEND / K_REQSEND messages carry (0x80000000 | record, submission number from 1)
+static void
+protolog_add(casectx *cx, nng_msg *m)
+{
+	uint32_t a = 0, b = 0;
+	if (nng_msg_len(m) >= 8) {
+		nng_msg_trim_u32(m, &a);
+		nng_msg_trim_u32(m, &b);
+	}
+	pthread_mutex_lock(&sendlog_mtx);
+	if ((a & 0x80000000u) && (a & 0xff) < 8 && b >= 1 && b <= 40 && cx->got[a & 0xff][b - 1] < 200) cx->got[a & 0xff][b - 1]++;
 	pthread_mutex_unlock(&sendlog_mtx);
 	nng_msg_free(m);
 }
@@ -130,6 +213,29 @@ resname(int rv)
 }
 
 static void submit(arec *r, bool from_cb);
+static void complete(arec *r, bool in_callback);
+static void raise_default(arec *r);
+
+// nng_aio_cancel / nng_aio_abort with bookkeeping: which calls have begun and
+// which have returned (a call that returned before a submission began cannot
+// be the reason for that submission's result)
+static void
+do_cancel(arec *r)
+{
+	atomic_store(&r->cancel_issued, 1);
+	atomic_fetch_add(&r->cancels_begun, 1);
+	nng_aio_cancel(r->aio);
+	atomic_fetch_add(&r->cancels_done, 1);
+}
+
+static void
+do_abort(arec *r)
+{
+	atomic_store(&r->abort_issued, 1);
+	atomic_fetch_add(&r->aborts_begun, 1);
+	nng_aio_abort(r->aio, ABORT_CODE);
+	atomic_fetch_add(&r->aborts_done, 1);
+}
 
 static void
 prov_cancel(nng_aio *aio, void *arg, nng_err rv)
@@ -138,6 +244,10 @@ prov_cancel(nng_aio *aio, void *arg, nng_err rv)
 	if (r->cancel_delay_us) {
 		vf_usleep(r->cancel_delay_us);
 	}
+	// (grid mode: a gate operation keeps the expire thread busy until the
+	// deadlines of the operations behind it have certainly passed)
+	uint64_t gate = atomic_load(&r->gate_until);
+	for (int k = 0; gate != 0 && (uint64_t) nng_clock() <= gate && k < 20000; k++) vf_usleep(100);
 	pthread_mutex_lock(&prov_mtx);
 	if (r->prov_owned) {
 		r->prov_owned      = false;
@@ -166,33 +276,53 @@ prov_complete(arec *r)
 	return false;
 }
 
+// One completion of an operation: from the aio's callback (in_callback), or
+// inline - the skip-callback flag was found set after the submission, or the
+// waiter thread of an aio without callback came back from nng_aio_wait.
 static void
-cb(void *arg)
+complete(arec *r, bool in_callback)
 {
-	arec    *r   = arg;
 	uint64_t now = vf_now_ns();
 	int      exp = 0;
 	char     key[96];
 
-	if (!atomic_compare_exchange_strong(&r->in_cb, &exp, 1)) {
-		vf_violation("C02/callback-overlap", "%s: two callbacks of one aio running at once", kind_names[r->kind]);
+	// (in_cb: a callback of this aio is executing - what nng_aio_stop / wait /
+	// free must have waited for; a completion handled inline is not one)
+	if (!atomic_compare_exchange_strong(in_callback ? &r->in_cb : &r->in_inline, &exp, 1)) {
+		vf_violation("C02/callback-overlap", "%s: two %s of one aio running at once", kind_names[r->kind], in_callback ? "callbacks" : "completions (one delivered through the skip-callback flag)");
 	}
 	if (atomic_load(&r->freed)) {
 		vf_violation("C02/callback-after-free", "%s: callback began after nng_aio_free returned", kind_names[r->kind]);
 		return;
 	}
-	if (r->dwell_us) vf_usleep(r->dwell_us);
+	if (r->dwell_us && in_callback) vf_usleep(r->dwell_us);
 	int ncb = atomic_fetch_add(&r->n_cb, 1) + 1;
 	int nsub = atomic_load(&r->n_submit);
 	if (ncb > nsub) {
 		snprintf(key, sizeof(key), "C02/double-completion/%s", kind_names[r->kind]);
 		vf_violation(key, "%s: callback #%d but only %d submissions", kind_names[r->kind], ncb, nsub);
 	}
-	if (atomic_load(&r->stop_returned)) {
+	if (in_callback && r->skipv && nsub >= 1 && nsub <= SKIPN && r->skipflag[nsub - 1]) {
+		// exactly one of the two ways of delivery
+		snprintf(key, sizeof(key), "C02/skip-and-callback/%s", kind_names[r->kind]);
+		vf_violation(key, "%s: the skip-callback flag of submission #%d was set AND the callback ran", kind_names[r->kind], nsub);
+	}
+	if (atomic_load(&r->stop_returned) && in_callback && !atomic_load(&r->post_stop)) {
 		snprintf(key, sizeof(key), "C02/callback-after-stop/%s", kind_names[r->kind]);
 		vf_violation(key, "%s: callback began after nng_aio_stop returned", kind_names[r->kind]);
 	}
 	int rv = (int) nng_aio_result(r->aio);
+	if (atomic_load(&r->post_stop)) {
+		// an operation submitted after nng_aio_stop returned is not started:
+		// it is refused with NNG_ESTOPPED, or ends at once with whatever the
+		// owner can say without waiting (a queued message, a state error, a
+		// closed owner) - never with the outcome of a wait
+		if (rv == NNG_ETIMEDOUT || rv == NNG_ECANCELED || rv == ABORT_CODE) {
+			snprintf(key, sizeof(key), "C02/start-after-stop/%s", kind_names[r->kind]);
+			vf_violation(key, "%s: operation submitted after nng_aio_stop returned completed with %d (%s): it was started", kind_names[r->kind], rv, resname(rv));
+		}
+		if (rv == NNG_ESTOPPED) vf_stat("start_after_stop_refused", 1);
+	}
 	int tmo = atomic_load(&r->timeout_ms);
 	double el_ms = (double) (now - atomic_load(&r->t_submit)) / 1e6;
 	switch (rv) {
@@ -212,29 +342,42 @@ cb(void *arg)
 			snprintf(key, sizeof(key), "C02/timeout-without-timeout/%s", kind_names[r->kind]);
 			vf_violation(key, "%s: NNG_ETIMEDOUT but no timeout was configured (elapsed %.2f ms)", kind_names[r->kind], el_ms);
 		} else if (el_ms < (double) tmo - 1.0) {
-			// which window?  If the expire loop picked this aio before the
-			// current submission began, the timeout belongs to the previous
-			// operation of this aio and its cancel call landed on this one.
-			// (the pick must be recent: the expire thread only sits on a
-			// picked aio for as long as it is delayed)
-			uint64_t pick = atomic_load(&r->t_expire_pick), ts = atomic_load(&r->t_submit);
-			bool     stale = pick != 0 && pick <= ts && ts - pick < 250ULL * 1000000ULL;
+			// which window?  The known one (DESIGN 9.3): the expire loop picked
+			// the PREVIOUS operation of this aio (event emitted right before it
+			// drops the lock and calls the cancel function it read), that
+			// operation ended otherwise, and the late cancel call landed on this
+			// one.  So: a pick before this submission began that no timeout
+			// callback has consumed yet.  Any other early timeout (no pick at
+			// all, or a pick whose timeout has been delivered) is something else
+			// and gets a key that the known finding does not cover.
+			uint64_t pick = atomic_load(&r->t_expire_pick), ts = atomic_load(&r->t_submit), ptc = atomic_load(&r->t_prev_tmo_cb);
+			bool     stale = pick != 0 && pick <= ts && ts - pick < 2000ULL * 1000000ULL && ptc < pick;
 			if (stale) vf_stat("stale_expiry_classified", 1);
-			snprintf(key, sizeof(key), "C02/timeout-early/%s%s", stale ? "stale-expiry-cancel/" : "", kind_names[r->kind]);
-			vf_violation(key, "%s: NNG_ETIMEDOUT after %.2f ms, configured %d ms (expire loop last picked this aio %s%.2f ms %s this submission; submission #%d, callback #%d, cancel_delay %d us)", kind_names[r->kind], el_ms, tmo,
-			    pick == 0 ? "never: " : "", pick == 0 ? 0.0 : (pick <= ts ? (double) (ts - pick) : (double) (pick - ts)) / 1e6, pick <= ts ? "before" : "AFTER", nsub, ncb, r->cancel_delay_us);
+			snprintf(key, sizeof(key), "C02/timeout-early/%s%s", stale ? "stale-expiry-cancel/" : r->dflt ? "owner-default/" : r->use_expire ? "set-expire/" : "", kind_names[r->kind]);
+			vf_violation(key, "%s: NNG_ETIMEDOUT after %.2f ms, configured %d ms (expire loop last picked this aio %s%.2f ms %s this submission, previous timeout callback %s that pick; submission #%d, callback #%d, cancel_delay %d us)", kind_names[r->kind], el_ms, tmo,
+			    pick == 0 ? "never: " : "", pick == 0 ? 0.0 : (pick <= ts ? (double) (ts - pick) : (double) (pick - ts)) / 1e6, pick <= ts ? "before" : "AFTER", ptc < pick ? "before" : "AFTER", nsub, ncb, r->cancel_delay_us);
 		}
 		break;
 	case NNG_ECANCELED:
 		if (!atomic_load(&r->cancel_issued)) {
 			snprintf(key, sizeof(key), "C02/spurious-cancel/%s", kind_names[r->kind]);
 			vf_violation(key, "%s: NNG_ECANCELED but nng_aio_cancel was never called", kind_names[r->kind]);
+		} else if (atomic_load(&r->cancels_begun) <= atomic_load(&r->cancel_floor)) {
+			// every nng_aio_cancel of this aio had returned before this
+			// operation was submitted ("no operation in progress: no effect")
+			snprintf(key, sizeof(key), "C02/spurious-cancel/after-return/%s", kind_names[r->kind]);
+			vf_violation(key, "%s: NNG_ECANCELED for submission #%d, but all %d nng_aio_cancel calls had returned before it was submitted", kind_names[r->kind], nsub, atomic_load(&r->cancels_begun));
+		} else {
+			vf_stat("cancel_code_checked", 1);
 		}
 		break;
 	case ABORT_CODE:
 		if (!atomic_load(&r->abort_issued)) {
 			snprintf(key, sizeof(key), "C02/spurious-abort/%s", kind_names[r->kind]);
 			vf_violation(key, "%s: abort code reported but nng_aio_abort was never called", kind_names[r->kind]);
+		} else if (atomic_load(&r->aborts_begun) <= atomic_load(&r->abort_floor) && !(r->prestart_abort && nsub == 1)) {
+			snprintf(key, sizeof(key), "C02/spurious-abort/after-return/%s", kind_names[r->kind]);
+			vf_violation(key, "%s: abort code for submission #%d, but all %d nng_aio_abort calls had returned before it was submitted", kind_names[r->kind], nsub, atomic_load(&r->aborts_begun));
 		}
 		break;
 	case NNG_ESTOPPED:
@@ -244,7 +387,7 @@ cb(void *arg)
 		}
 		break;
 	case NNG_ECLOSED:
-		if (!atomic_load(&r->close_issued) && r->kind != K_STREAMRECV && r->kind != K_DIAL) {
+		if (!atomic_load(&r->close_issued) && r->kind != K_STREAMRECV && r->kind != K_DIAL && r->kind != K_STREAMSEND && r->kind != K_DEVICE) {
 			snprintf(key, sizeof(key), "C02/spurious-closed/%s", kind_names[r->kind]);
 			vf_violation(key, "%s: NNG_ECLOSED but nothing was closed", kind_names[r->kind]);
 		}
@@ -308,6 +451,7 @@ cb(void *arg)
 	}
 	if (r->kind == K_PROTOSEND || r->kind == K_REQSEND) {
 		nng_msg *m = nng_aio_get_msg(r->aio);
+		if (nsub >= 1 && nsub <= 40) r->send_rv[nsub - 1] = rv == 0 ? 1 : 2; // (the message carries nsub)
 		if (rv != 0) {
 			if (m == NULL) {
 				snprintf(key, sizeof(key), "C02/send-failed-without-msg/%s", kind_names[r->kind]);
@@ -318,13 +462,37 @@ cb(void *arg)
 			}
 		}
 	}
-	if (r->kind == K_SOCKRECV || r->kind == K_CTXRECV || r->kind == K_PROTORECV || r->kind == K_SURVRECV) {
+	if (r->kind == K_STREAMRECV && rv == 0) {
+		// the peer writes the byte sequence 0,1,2,...: what a successful
+		// receive delivers continues where the previous one ended
+		size_t n = nng_aio_count(r->aio);
+		if (n == 0 || n > 16) {
+			vf_violation("C02/stream-recv-count", "stream receive completed with 0 and count %zu (buffer of 16)", n);
+		} else {
+			for (size_t j = 0; j < n; j++) {
+				if (r->cx->rbuf[r->idx][j] != (uint8_t) ((r->rx_off + j) & 0xff)) {
+					vf_violation("C02/stream-recv-gap", "stream receive #%d delivered byte %u at stream offset %zu, expected %u (bytes were consumed by a receive that reported an error, or delivered twice)", ncb, r->cx->rbuf[r->idx][j], r->rx_off + j, (unsigned) ((r->rx_off + j) & 0xff));
+					break;
+				}
+			}
+			r->rx_off += n;
+			atomic_fetch_add(&r->cx->stream_recv_ok, (long) n);
+		}
+	}
+	if (r->kind == K_SOCKRECV || r->kind == K_CTXRECV || r->kind == K_PROTORECV || r->kind == K_SURVRECV || r->kind == K_REQRECV) {
 		nng_msg *m = nng_aio_get_msg(r->aio);
 		if (rv == 0) {
 			if (m == NULL) {
 				vf_violation("C02/recv-ok-without-msg", "%s: result 0 with no message", kind_names[r->kind]);
 			} else {
 				atomic_fetch_add(&r->cx->msgs_recv_ok, 1);
+				if ((r->kind == K_CTXRECV || (r->kind == K_PROTORECV && (r->cx->sub == PR_PULL || r->cx->sub == PR_PAIR0))) && nng_msg_len(m) >= 4) {
+					uint32_t tag = 99;
+					nng_msg_trim_u32(m, &tag);
+					pthread_mutex_lock(&sendlog_mtx);
+					if (tag < 64 && r->cx->recv_tag[tag] < 200) r->cx->recv_tag[tag]++;
+					pthread_mutex_unlock(&sendlog_mtx);
+				}
 				if (r->kind == K_CTXRECV) {
 					// reply so the REP context can receive again
 					nng_aio_set_msg(r->aio, NULL);
@@ -334,6 +502,7 @@ cb(void *arg)
 			}
 		}
 	}
+	if (rv == NNG_ETIMEDOUT) atomic_store(&r->t_prev_tmo_cb, now);
 	int slot = rv == 0 ? 0 : rv == NNG_ETIMEDOUT ? 1 : rv == NNG_ECANCELED ? 2 : rv == NNG_ESTOPPED ? 3 : rv == NNG_ECLOSED ? 4 : rv == ABORT_CODE ? 5 : 6;
 	atomic_fetch_add(&r->results[slot], 1);
 	if (r->kind == K_PROTORECV || r->kind == K_PROTOSEND) {
@@ -342,11 +511,54 @@ cb(void *arg)
 		vf_class("%s/%s", kind_names[r->kind], resname(rv));
 	}
 
-	atomic_store(&r->in_cb, 0);
-	// re-submission from inside the callback
-	if (r->resubmits_left > 0 && rv != NNG_ESTOPPED && rv != NNG_ECLOSED && !atomic_load(&r->stop_issued) && !atomic_load(&r->close_issued) && r->kind != K_DIAL && !atomic_load(&r->free_issued)) {
+	atomic_store(in_callback ? &r->in_cb : &r->in_inline, 0);
+	// re-submission from inside the callback (while a stop is in progress
+	// only for some: the start is then refused, and nng_aio_stop returns
+	// after that second callback)
+	// (never after NNG_ESTOPPED was seen: the aio is finished for good then)
+	bool in_stop  = r->resub_in_stop && in_callback && atomic_load(&r->stop_issued) && !atomic_load(&r->stop_returned) && !atomic_load(&r->free_issued);
+	bool stopping = atomic_load(&r->stop_issued) && !in_stop;
+	if (in_stop && r->resubmits_left > 0) vf_stat("resubmit_during_stop", 1);
+	if (r->resubmits_left > 0 && rv != NNG_ESTOPPED && rv != NNG_ECLOSED && !stopping && !atomic_load(&r->close_issued) && r->kind != K_DIAL && !atomic_load(&r->free_issued) && !atomic_load(&r->post_stop)) {
 		r->resubmits_left--;
+		raise_default(r);
 		submit(r, true);
+	}
+}
+
+static void
+cb(void *arg)
+{
+	complete(arg, true);
+}
+
+// NNG_DURATION_DEFAULT records: which option of which owner supplies the timeout
+static int
+default_option(arec *r, int ms, bool set)
+{
+	casectx    *cx = r->cx;
+	const char *opt = (r->kind == K_SOCKSEND || r->kind == K_PROTOSEND || r->kind == K_REQSEND) ? NNG_OPT_SENDTIMEO : NNG_OPT_RECVTIMEO;
+	bool        perctx = r->kind == K_CTXRECV || r->kind == K_REQSEND;
+	int         slot = perctx ? r->idx : 0;
+	if (set) {
+		int rv = perctx ? nng_ctx_set_ms(cx->ctx[r->idx], opt, ms) : nng_socket_set_ms(cx->s, opt, ms);
+		// (publish after it is in effect: readers use it as a lower bound)
+		if (rv == 0) atomic_store(&cx->opt_ms[slot], ms);
+	}
+	return slot;
+}
+
+// before a re-submission: raise the owner's timeout option (it only grows, so
+// what a submission reads beforehand is a lower bound of what applies to it)
+static void
+raise_default(arec *r)
+{
+	casectx *cx = r->cx;
+	if (!r->dflt) return;
+	int slot = default_option(r, 0, false);
+	if ((slot != 0 || r->idx == 0) && !atomic_exchange(&cx->opt_raised[slot], 1)) {
+		default_option(r, cx->opt_T2, true);
+		vf_stat("default_timeout_raised", 1);
 	}
 }
 
@@ -355,18 +567,50 @@ submit(arec *r, bool from_cb)
 {
 	casectx *cx = r->cx;
 	int      tmo = (from_cb && !r->tmo_once) ? r->resubmit_timeout : atomic_load(&r->timeout_ms);
+	if (r->dflt) {
+		// the aio says "default": the configured duration is the owner's
+		// option at the time of the submission (at least what we read now)
+		tmo = atomic_load(&cx->opt_ms[default_option(r, 0, false)]);
+		if (!(from_cb && r->tmo_once)) nng_aio_set_timeout(r->aio, NNG_DURATION_DEFAULT);
+		vf_stat("default_timeout_submissions", 1);
+	}
 	atomic_store(&r->timeout_ms, tmo);
-	if (!(from_cb && r->tmo_once)) {
+	if (r->dflt) {
+	} else if (r->use_expire && tmo > 0) {
+	} else if (!(from_cb && r->tmo_once)) {
 		// (an application that configures its aio once and re-uses it)
 		nng_aio_set_timeout(r->aio, tmo < 0 ? NNG_DURATION_INFINITE : tmo);
 	}
+	atomic_store(&r->cancel_floor, atomic_load(&r->cancels_done));
+	atomic_store(&r->abort_floor, atomic_load(&r->aborts_done));
 	atomic_store(&r->t_submit, vf_now_ns());
-	atomic_fetch_add(&r->n_submit, 1);
+	if (!r->dflt && r->use_expire && tmo > 0) {
+		// absolute deadline (read the clock after t_submit: never-early stays one-sided)
+		nng_aio_set_expire(r->aio, nng_clock() + (nng_time) tmo);
+		vf_stat("set_expire_submissions", 1);
+	}
+	int sq = atomic_fetch_add(&r->n_submit, 1); // number of this submission, from 0
+	if (r->skipv && sq < SKIPN) {
+		nng_aio_skip_callback(r->aio, (bool *) &r->skipflag[sq]);
+	}
 	switch (r->kind) {
 	case K_SLEEP:
 		nng_sleep_aio(atomic_load(&r->sleep_ms), r->aio);
 		break;
 	case K_PROVIDER:
+		if (r->prov_sync && !atomic_load(&r->post_stop) && (vf_mix64((uint64_t) (uintptr_t) r->aio ^ ((uint64_t) sq << 32) ^ vf_seed) & 1)) {
+			// an operation that completes at once: the provider finishes it
+			// without starting it (and without the reset that would drop a
+			// skip-callback request)
+			pthread_mutex_lock(&prov_mtx);
+			r->prov_owned      = false;
+			r->prov_final      = 0;
+			r->prov_have_final = 1;
+			pthread_mutex_unlock(&prov_mtx);
+			vf_stat("provider_sync_finish", 1);
+			nng_aio_finish(r->aio, 0);
+			break;
+		}
 		nng_aio_reset(r->aio);
 		// start under the provider lock: a cancel that arrives right after
 		// start waits for it and then finds the operation owned; a completer
@@ -381,12 +625,13 @@ submit(arec *r, bool from_cb)
 		break;
 	case K_SOCKSEND: {
 		nng_msg *m;
-		int      sq = atomic_load(&r->n_submit) - 1; // this submission
 		if (sq >= 40 || nng_msg_alloc(&m, 0) != 0) {
 			// out of bookkeeping room: complete it ourselves as a provider would
 			atomic_store(&r->send_seq, -1);
 			nng_aio_reset(r->aio);
-			if (nng_aio_start(r->aio, NULL, NULL)) nng_aio_finish(r->aio, NNG_ECANCELED), atomic_store(&r->cancel_issued, 1);
+			atomic_store(&r->cancel_issued, 1); // (before the finish: the callback may run at once)
+			atomic_fetch_add(&r->cancels_begun, 1);
+			if (nng_aio_start(r->aio, NULL, NULL)) nng_aio_finish(r->aio, NNG_ECANCELED);
 			break;
 		}
 		nng_msg_append_u32(m, (uint32_t) r->idx);
@@ -457,6 +702,47 @@ submit(arec *r, bool from_cb)
 		nng_stream_recv(cx->st_a, r->aio);
 		break;
 	}
+	case K_STREAMSEND: {
+		// to a peer that does not read: the first few fill the socket
+		// buffers, the others wait in the connection's write queue
+		static uint8_t big[256 * 1024];
+		nng_iov        iov = { big, sizeof(big) };
+		nng_aio_set_iov(r->aio, 1, &iov);
+		nng_stream_send(cx->st_a, r->aio);
+		break;
+	}
+	case K_REQRECV: {
+		// a request first (new one for most receives), then the receive
+		if (sq == 0 || vf_mix64(cx->key_surv ^ (uint64_t) sq ^ ((uint64_t) r->idx << 20)) % 4 != 0) {
+			nng_msg *m;
+			if (nng_msg_alloc(&m, 0) != 0) vf_harness_fail("msg alloc");
+			nng_msg_append_u32(m, (uint32_t) r->idx);
+			if (nng_ctx_sendmsg(cx->ctx[r->idx], m, NNG_FLAG_NONBLOCK) != 0) {
+				nng_msg_free(m);
+			} else {
+				vf_stat("requests_sent", 1);
+			}
+		}
+		atomic_store(&r->t_submit, vf_now_ns());
+		nng_ctx_recv(cx->ctx[r->idx], r->aio);
+		break;
+	}
+	case K_DEVICE:
+		nng_device_aio(r->aio, cx->dev1, cx->dev2);
+		break;
+	}
+	atomic_fetch_add(&r->n_started, 1);
+	if (r->skipv && sq < SKIPN) {
+		if (r->skipflag[sq]) {
+			// completed synchronously: the result is in the aio now and no
+			// callback will run for this submission
+			r->skip_taken[sq] = true;
+			vf_stat("skip_inline", 1);
+			vf_class("skip-inline/%s", kind_names[r->kind]);
+			complete(r, false);
+		} else {
+			vf_stat("skip_async", 1);
+		}
 	}
 }
 
@@ -465,9 +751,18 @@ typedef struct {
 	vf_rng   rng;
 	int      act[8];
 	int      act_at_us[8];
+	// a second terminating action on the same aio / owner from another
+	// thread, at about the same instant
+	int      act2[8];
+	int      act2_at_us[8];
 	int      complete_at_us;
 	int      ncomplete;
 } plan;
+
+typedef struct {
+	plan *p;
+	int  *act, *at_us;
+} actorarg;
 
 // nothing of this aio may be executing once stop / wait / free returned
 static void
@@ -484,7 +779,8 @@ check_not_running(arec *r, const char *what)
 static void *
 actor_thread(void *arg)
 {
-	plan    *p  = arg;
+	actorarg *aa = arg;
+	plan    *p  = aa->p;
 	casectx *cx = p->cx;
 	uint64_t t0 = vf_now_ns();
 	// issue actions in time order
@@ -492,20 +788,18 @@ actor_thread(void *arg)
 	for (;;) {
 		int best = -1;
 		for (int i = 0; i < cx->nrec; i++) {
-			if (!done[i] && p->act[i] != A_NONE && (best < 0 || p->act_at_us[i] < p->act_at_us[best])) best = i;
+			if (!done[i] && aa->act[i] != A_NONE && (best < 0 || aa->at_us[i] < aa->at_us[best])) best = i;
 		}
 		if (best < 0) break;
-		int64_t wait = (int64_t) p->act_at_us[best] - (int64_t) ((vf_now_ns() - t0) / 1000);
+		int64_t wait = (int64_t) aa->at_us[best] - (int64_t) ((vf_now_ns() - t0) / 1000);
 		if (wait > 0) vf_usleep((int) wait);
 		arec *r = &cx->rec[best];
-		switch (p->act[best]) {
+		switch (aa->act[best]) {
 		case A_CANCEL:
-			atomic_store(&r->cancel_issued, 1);
-			nng_aio_cancel(r->aio);
+			do_cancel(r);
 			break;
 		case A_ABORT:
-			atomic_store(&r->abort_issued, 1);
-			nng_aio_abort(r->aio, ABORT_CODE);
+			do_abort(r);
 			break;
 		case A_STOP:
 			atomic_store(&r->stop_issued, 1);
@@ -543,6 +837,9 @@ actor_thread(void *arg)
 				}
 				break;
 			case K_STREAMRECV: nng_stream_close(cx->st_a); break;
+			case K_STREAMSEND: nng_stream_close(cx->st_a); break;
+			case K_REQRECV: nng_ctx_close(cx->ctx[best]); break;
+			case K_DEVICE: nng_socket_close(cx->dev1); break;
 			default: break;
 			}
 			break;
@@ -576,6 +873,7 @@ completer_thread(void *arg)
 			int rv = nng_sendmsg(cx->peer, m, 0);
 			if (rv != 0) { nng_msg_free(m); break; }
 			atomic_fetch_add(&cx->msgs_sent, 1);
+			if (i < 64) cx->sent_tag[i] = 1;
 			if (cx->kind == K_CTXRECV) {
 				// REQ: must receive a reply (or time out) before next request
 				nng_msg *rep = NULL;
@@ -600,16 +898,62 @@ completer_thread(void *arg)
 			if (cx->sub == PR_XREP) nng_msg_header_append_u32(m, 0x80000000u | (uint32_t) (i + 1));
 			nng_msg_append_u32(m, (uint32_t) i);
 			if (nng_sendmsg(cx->peer, m, NNG_FLAG_NONBLOCK) != 0) nng_msg_free(m);
+			else if (i < 64) cx->sent_tag[i] = 1;
 			vf_usleep((int) vf_below(&p->rng, 800));
 		}
 		break;
 	case K_PROTOSEND:
 		for (int i = 0; i < p->ncomplete; i++) {
 			nng_msg *m = NULL;
-			if (nng_recvmsg(cx->peer, &m, 0) == 0) nng_msg_free(m);
+			if (nng_recvmsg(cx->peer, &m, 0) == 0) protolog_add(cx, m);
 			vf_usleep((int) vf_below(&p->rng, 800));
 		}
 		break;
+	case K_REQRECV: {
+		// a replier that answers about half of the requests it sees
+		uint64_t end = vf_now_ns() + 150ULL * 1000000ULL;
+		while (vf_now_ns() < end) {
+			nng_msg *m = NULL;
+			if (nng_recvmsg(cx->peer, &m, 0) != 0) continue;
+			if (vf_chance(&p->rng, 1, 2)) {
+				vf_usleep((int) vf_below(&p->rng, 3000));
+				if (nng_sendmsg(cx->peer, m, 0) != 0) nng_msg_free(m);
+			} else {
+				nng_msg_free(m);
+			}
+		}
+		break;
+	}
+	case K_DEVICE:
+		// traffic through the device, both ways
+		for (int i = 0; i < p->ncomplete; i++) {
+			nng_msg *m;
+			nng_socket from = (i & 1) ? cx->dpeer2 : cx->dpeer1, to = (i & 1) ? cx->dpeer1 : cx->dpeer2;
+			if (nng_msg_alloc(&m, 0) != 0) break;
+			nng_msg_append_u32(m, (uint32_t) i);
+			if (nng_sendmsg(from, m, NNG_FLAG_NONBLOCK) != 0) nng_msg_free(m);
+			m = NULL;
+			if (nng_recvmsg(to, &m, 0) == 0) {
+				nng_msg_free(m);
+				vf_stat("device_forwarded", 1);
+			}
+		}
+		break;
+	case K_STREAMSEND: {
+		// after a while the peer reads a little (pending sends make progress)
+		static uint8_t sink[64 * 1024];
+		nng_aio       *a;
+		nng_aio_alloc(&a, NULL, NULL);
+		for (int i = 0; i < p->ncomplete * 3; i++) {
+			nng_iov iov = { sink, sizeof(sink) };
+			nng_aio_set_iov(a, 1, &iov);
+			nng_aio_set_timeout(a, 20);
+			nng_stream_recv(cx->st_b, a);
+			nng_aio_wait(a);
+		}
+		nng_aio_free(a);
+		break;
+	}
 	case K_SURVRECV: {
 		// a respondent that answers about half of the surveys it sees
 		uint64_t end = vf_now_ns() + 400ULL * 1000000ULL;
@@ -628,7 +972,12 @@ completer_thread(void *arg)
 	case K_REQSEND:
 		// the requests wait for a connection: make one (or not)
 		if (p->ncomplete > 0) {
-			(void) vf_connect(cx->s, cx->peer, VF_T_INPROC);
+			if (vf_connect(cx->s, cx->peer, VF_T_INPROC) == 0) cx->connected = true;
+			// the replier takes some of the requests now, the rest later
+			for (int i = 0; i < p->ncomplete; i++) {
+				nng_msg *m = NULL;
+				if (nng_recvmsg(cx->peer, &m, 0) == 0) protolog_add(cx, m);
+			}
 		}
 		break;
 	case K_ACCEPT: {
@@ -652,11 +1001,20 @@ completer_thread(void *arg)
 		nng_aio *a;
 		nng_aio_alloc(&a, NULL, NULL);
 		for (int i = 0; i < p->ncomplete; i++) {
-			nng_iov iov = { "0123456789abcdef", 16 };
+			// (position-coded bytes: the receiver checks continuity)
+			uint8_t chunk[16];
+			long    off = atomic_load(&cx->stream_sent);
+			for (int j = 0; j < 16; j++) chunk[j] = (uint8_t) ((off + j) & 0xff);
+			nng_iov iov = { chunk, 16 };
 			nng_aio_set_iov(a, 1, &iov);
 			nng_aio_set_timeout(a, 2000);
 			nng_stream_send(cx->st_b, a);
 			nng_aio_wait(a);
+			if (nng_aio_result(a) != 0) {
+				atomic_store(&cx->stream_unknown, 1);
+				break;
+			}
+			atomic_fetch_add(&cx->stream_sent, (long) nng_aio_count(a));
 			vf_usleep((int) vf_below(&p->rng, 800));
 		}
 		nng_aio_free(a);
@@ -674,6 +1032,102 @@ static void
 rep_reply_all(casectx *cx)
 {
 	(void) cx;
+}
+
+// an aio without callback: its user waits with nng_aio_wait and then looks
+// at the result (and may submit again)
+static void *
+waiter_thread(void *arg)
+{
+	arec *r = arg;
+	for (;;) {
+		if (atomic_load(&r->n_started) > atomic_load(&r->n_cb)) {
+			nng_aio_wait(r->aio);
+			complete(r, false);
+			continue;
+		}
+		if (atomic_load(&r->waiter_quit)) break;
+		vf_usleep(200);
+	}
+	return NULL;
+}
+
+// end of a case: cancel whatever is still pending, wait, stop, and demand one
+// callback per submission
+static void
+finish_records(casectx *cx)
+{
+	for (int i = 0; i < cx->nrec; i++) {
+		arec *a = &cx->rec[i];
+		a->resubmits_left = 0;
+		if (atomic_load(&a->freed)) continue;
+		do_cancel(a);
+	}
+	for (int i = 0; i < cx->nrec; i++) {
+		arec *a = &cx->rec[i];
+		if (atomic_load(&a->freed)) continue;
+		// everything was cancelled: an operation that is still busy after
+		// 15 s of run time will never complete (its callback is lost);
+		// say so instead of hanging in nng_aio_wait
+		for (int k = 0; nng_aio_busy(a->aio); k++) {
+			if (k >= 15000) {
+				char key[96];
+				snprintf(key, sizeof(key), "C02/lost-completion/%s/never-completes", kind_names[a->kind]);
+				vf_violation(key, "%s: operation still pending 15 s after nng_aio_cancel (submissions %d, callbacks %d); its completion is lost", kind_names[a->kind], atomic_load(&a->n_submit), atomic_load(&a->n_cb));
+				int code = vf_finish();
+				_exit(code != 0 ? code : 1); // cannot wait for / free this aio
+			}
+			if ((k % 100) == 99) do_cancel(a);
+			vf_msleep(1);
+		}
+		nng_aio_wait(a->aio);
+		check_not_running(a, "wait");
+		// a callback may have resubmitted between cancel and wait
+		for (int k = 0; k < 50 && nng_aio_busy(a->aio); k++) {
+			do_cancel(a);
+			nng_aio_wait(a->aio);
+		}
+		atomic_store(&a->stop_issued, 1);
+		nng_aio_stop(a->aio);
+		atomic_store(&a->stop_returned, 1);
+		check_not_running(a, "stop");
+	}
+	for (int i = 0; i < cx->nrec; i++) {
+		arec *a = &cx->rec[i];
+		if (!a->nocb) continue;
+		atomic_store(&a->waiter_quit, 1);
+		pthread_join(a->waiter, NULL);
+	}
+	// exactly once: every submission had its callback
+	for (int i = 0; i < cx->nrec; i++) {
+		arec *a = &cx->rec[i];
+		int   ns = atomic_load(&a->n_submit), nc = atomic_load(&a->n_cb);
+		char  key[96];
+		if (nc != ns) {
+			snprintf(key, sizeof(key), "C02/%s/%s", nc < ns ? "lost-completion" : "double-completion", kind_names[a->kind]);
+			vf_violation(key, "%s: %d submissions but %d %s after nng_aio_stop", kind_names[a->kind], ns, nc, a->nocb ? "completions seen by nng_aio_wait" : "callbacks");
+		}
+		// the skip-callback flag of a submission that went asynchronous stays clear
+		for (int q = 0; a->skipv && q < ns && q < SKIPN; q++) {
+			if (a->skipflag[q] && !a->skip_taken[q]) {
+				snprintf(key, sizeof(key), "C02/skip-flag-set-late/%s", kind_names[a->kind]);
+				vf_violation(key, "%s: the skip-callback flag of submission #%d was clear when the submission returned and was set later", kind_names[a->kind], q + 1);
+			}
+		}
+		if (a->nocb && !atomic_load(&a->freed)) {
+			// no callback to count: the library's own completion events of
+			// this aio (finish, refused start; a sleep may also be completed
+			// by the expire loop itself) must match the submissions
+			int fin = atomic_load(&a->ev_finish) + atomic_load(&a->ev_refused), slack = a->kind == K_SLEEP ? atomic_load(&a->ev_expire) : 0;
+			if (fin > ns || fin + slack < ns) {
+				snprintf(key, sizeof(key), "C02/%s/no-callback/%s", fin > ns ? "double-completion" : "lost-completion", kind_names[a->kind]);
+				vf_violation(key, "%s (aio without callback): %d submissions, %d completions inside the library (%d finished, %d refused, %d expired)", kind_names[a->kind], ns, fin, atomic_load(&a->ev_finish), atomic_load(&a->ev_refused), atomic_load(&a->ev_expire));
+			}
+			vf_stat("nocb_operations", ns);
+			vf_class("no-callback/%s", kind_names[a->kind]);
+		}
+		vf_stat("operations", ns);
+	}
 }
 
 static void
@@ -702,6 +1156,8 @@ run_case(long idx, vf_rng *r)
 	if (cx->kind == K_REQSEND) cx->nrec = (int) vf_range(r, 1, 4);
 	if (cx->kind == K_STREAMDIAL) cx->nrec = (int) vf_range(r, 1, 3);
 	if (cx->kind == K_SURVRECV) cx->nrec = (int) vf_range(r, 1, 3);
+	if (cx->kind == K_REQRECV || cx->kind == K_STREAMSEND) cx->nrec = (int) vf_range(r, 1, 3);
+	if (cx->kind == K_DEVICE) cx->nrec = 1;
 
 	vf_pt_off();
 	if (pert == 1) vf_pt_jitter(vf_rand(r), (int) vf_range(r, 5, 60), (int) vf_range(r, 20, 300));
@@ -752,6 +1208,7 @@ run_case(long idx, vf_rng *r)
 		if (orv) vf_harness_fail("open");
 		if (cx->sub == PR_SUB) nng_sub0_socket_subscribe(cx->s, "", 0);
 		if ((rv = vf_connect(cx->s, cx->peer, tran)) != 0) vf_harness_fail("connect: %s", nng_strerror(rv));
+		cx->connected = true;
 		break;
 	}
 	case K_PROTOSEND: {
@@ -767,7 +1224,10 @@ run_case(long idx, vf_rng *r)
 		nng_socket_set_int(cx->peer, NNG_OPT_RECVBUF, (int) vf_below(r, 2));
 		nng_socket_set_ms(cx->peer, NNG_OPT_RECVTIMEO, 30);
 		// sometimes there is no connection at all: every send waits
-		if (vf_chance(r, 3, 4) && (rv = vf_connect(cx->s, cx->peer, tran)) != 0) vf_harness_fail("connect: %s", nng_strerror(rv));
+		if (vf_chance(r, 3, 4)) {
+			if ((rv = vf_connect(cx->s, cx->peer, tran)) != 0) vf_harness_fail("connect: %s", nng_strerror(rv));
+			cx->connected = true;
+		}
 		break;
 	}
 	case K_SURVRECV:
@@ -784,7 +1244,24 @@ run_case(long idx, vf_rng *r)
 		break;
 	case K_REQSEND:
 		if (nng_req0_open(&cx->s) || nng_rep0_open(&cx->peer)) vf_harness_fail("open");
+		nng_socket_set_ms(cx->peer, NNG_OPT_RECVTIMEO, 30);
 		for (int i = 0; i < cx->nrec; i++) nng_ctx_open(&cx->ctx[i], cx->s);
+		break;
+	case K_REQRECV:
+		if (nng_req0_open(&cx->s) || nng_rep0_open(&cx->peer)) vf_harness_fail("open");
+		cx->key_surv = vf_rand(r);
+		nng_socket_set_ms(cx->s, NNG_OPT_REQ_RESENDTIME, 60000);
+		nng_socket_set_ms(cx->peer, NNG_OPT_RECVTIMEO, 20);
+		nng_socket_set_ms(cx->peer, NNG_OPT_SENDTIMEO, 100);
+		if ((rv = vf_connect(cx->peer, cx->s, tran)) != 0) vf_harness_fail("connect: %s", nng_strerror(rv));
+		for (int i = 0; i < cx->nrec; i++) nng_ctx_open(&cx->ctx[i], cx->s);
+		break;
+	case K_DEVICE:
+		// two raw sockets joined by a device, a peer on each
+		if (nng_pair0_open_raw(&cx->dev1) || nng_pair0_open_raw(&cx->dev2) || nng_pair0_open(&cx->dpeer1) || nng_pair0_open(&cx->dpeer2)) vf_harness_fail("open");
+		nng_socket_set_ms(cx->dpeer1, NNG_OPT_RECVTIMEO, 20);
+		nng_socket_set_ms(cx->dpeer2, NNG_OPT_RECVTIMEO, 20);
+		if ((rv = vf_connect(cx->dev1, cx->dpeer1, tran)) != 0 || (rv = vf_connect(cx->dev2, cx->dpeer2, VF_T_INPROC)) != 0) vf_harness_fail("connect: %s", nng_strerror(rv));
 		break;
 	case K_DIAL: {
 		if (nng_pair1_open(&cx->s)) vf_harness_fail("open");
@@ -812,9 +1289,10 @@ run_case(long idx, vf_rng *r)
 	}
 	case K_STREAMDIAL:
 	case K_ACCEPT:
+	case K_STREAMSEND:
 	case K_STREAMRECV: {
 		int port = 0;
-		const char *lurl = (cx->kind == K_STREAMDIAL && vf_chance(r, 1, 3)) ? "ipc:///tmp/vf-c02-sd" : "tcp://127.0.0.1:0";
+		const char *lurl = ((cx->kind == K_STREAMDIAL && vf_chance(r, 1, 3)) || (cx->kind == K_STREAMSEND && vf_chance(r, 2, 3))) ? "ipc:///tmp/vf-c02-sd" : "tcp://127.0.0.1:0";
 		char lbuf[96];
 		if (lurl[0] == 'i') {
 			snprintf(lbuf, sizeof(lbuf), "ipc:///tmp/vf-c02-%d-%ld", (int) getpid(), idx);
@@ -836,7 +1314,7 @@ run_case(long idx, vf_rng *r)
 			cx->sl = NULL;
 		}
 		if ((rv = nng_stream_dialer_alloc(&cx->sd, durl)) != 0) vf_harness_fail("stream dialer %s", nng_strerror(rv));
-		if (cx->kind == K_STREAMRECV) {
+		if (cx->kind == K_STREAMRECV || cx->kind == K_STREAMSEND) {
 			nng_aio *a1, *a2;
 			nng_aio_alloc(&a1, NULL, NULL);
 			nng_aio_alloc(&a2, NULL, NULL);
@@ -870,6 +1348,19 @@ run_case(long idx, vf_rng *r)
 		pert   = 2;
 		vf_pt_target(target, 1000, 800, (int) vf_range(r, 1500, 5000));
 	}
+	// NNG_DURATION_DEFAULT on every aio of the case: the owner's send / receive
+	// timeout option is the configured duration (T1 first, raised to T2 before
+	// a re-submission)
+	bool dflt = (cx->kind == K_SOCKRECV || cx->kind == K_SOCKSEND || cx->kind == K_CTXRECV || cx->kind == K_PROTORECV || cx->kind == K_PROTOSEND || cx->kind == K_REQSEND) && vf_chance(r, 1, 4);
+	if (dflt) {
+		int T1     = vf_chance(r, 1, 2) ? batch_timeout : (int) vf_range(r, 2, 30);
+		cx->opt_T2 = T1 + (int) vf_range(r, 15, 40);
+		for (int i = 0; i < cx->nrec; i++) {
+			arec tmp = { .kind = cx->kind, .idx = i, .cx = cx };
+			default_option(&tmp, T1, true);
+		}
+		vf_class("default-timeout/%s", kind_names[cx->kind]);
+	}
 	for (int i = 0; i < cx->nrec; i++) {
 		arec *a = &cx->rec[i];
 		a->kind = cx->kind;
@@ -880,7 +1371,13 @@ run_case(long idx, vf_rng *r)
 		}
 		a->idx  = i;
 		a->cx   = cx;
-		if (nng_aio_alloc(&a->aio, cb, a) != 0) vf_harness_fail("aio alloc");
+		// variants (gap list of the second audit)
+		a->nocb          = !mixed_batch && vf_chance(r, 1, 8);
+		a->skipv         = !a->nocb && vf_chance(r, 1, 5);
+		a->resub_in_stop = vf_chance(r, 1, 3);
+		a->prov_sync     = a->kind == K_PROVIDER && !mixed_batch && (a->skipv || vf_chance(r, 1, 3));
+		a->dflt          = dflt;
+		if (nng_aio_alloc(&a->aio, a->nocb ? NULL : cb, a) != 0) vf_harness_fail("aio alloc");
 		int tsel = (int) vf_below(r, 6);
 		if ((target == NNI_VP_AIO_EXPIRE_BEFORE_CANCEL || target == NNI_VP_AIO_EXPIRE_BETWEEN) && tsel < 2) tsel = 2; // make the expiry happen
 		int tmo  = tsel == 0 ? -1 : tsel == 1 ? 0 : tsel <= 3 ? batch_timeout : (int) vf_range(r, 1, 40);
@@ -891,6 +1388,9 @@ run_case(long idx, vf_rng *r)
 		a->cancel_delay_us  = vf_chance(r, 1, 3) ? (int) vf_range(r, 100, 3000) : 0;
 		a->dwell_us         = vf_chance(r, 1, 2) ? (int) vf_range(r, 50, 500) : 0;
 		a->tmo_once         = vf_chance(r, 1, 3);
+		a->use_expire       = !a->tmo_once && !dflt && a->kind != K_SLEEP && a->kind != K_SURVRECV && a->kind != K_REQRECV && vf_chance(r, 1, 6);
+		if (cx->kind == K_STREAMSEND) a->resubmits_left = (int) vf_range(r, 2, 8);
+		if (cx->kind == K_REQRECV) a->resubmits_left = (int) vf_range(r, 1, 4);
 		if (cx->kind == K_SURVRECV) {
 			// several receives per aio, some late in a survey (clamped to its
 			// deadline), some right after a new one; long own timeout half the time
@@ -910,11 +1410,26 @@ run_case(long idx, vf_rng *r)
 		p.act[i]            = (int) vf_below(r, A_NACTS);
 		if (p.act[i] == A_CLOSE && (cx->kind == K_SLEEP || cx->kind == K_PROVIDER)) p.act[i] = A_CANCEL;
 		if (p.act[i] == A_FREE && cx->kind == K_SOCKSEND) p.act[i] = A_STOP; // (its conservation table reads the record later)
+		if (p.act[i] == A_FREE && a->nocb) p.act[i] = A_STOP; // (its waiter thread sits in nng_aio_wait)
 		if (p.act[i] == A_FREE) a->resubmits_left = 0; // an application does not re-arm an aio it is freeing
 		// around the nominal instant (or at once / pre-start)
 		int asel = (int) vf_below(r, 5);
 		p.act_at_us[i] = asel == 0 ? 0 : asel == 1 ? (int) vf_below(r, 300) : (int) (base_ms * 1000 + (int) vf_below(r, 3000) - 1500);
 		if (p.act_at_us[i] < 0) p.act_at_us[i] = 0;
+		// a second terminating action from another thread at about the same
+		// instant (nng_aio_free only next to a close of the owner: nothing
+		// else may touch an aio that is being freed)
+		p.act2[i] = A_NONE;
+		if (p.act[i] != A_NONE && !mixed_batch && vf_chance(r, 1, 3)) {
+			int a2 = (int) vf_range(r, A_CANCEL, A_FREE);
+			if (a2 == A_CLOSE && (cx->kind == K_SLEEP || cx->kind == K_PROVIDER)) a2 = A_CANCEL;
+			if (a2 == A_FREE && (cx->kind == K_SOCKSEND || a->nocb || p.act[i] != A_CLOSE)) a2 = A_STOP;
+			if (p.act[i] == A_FREE && a2 != A_CLOSE) a2 = A_NONE;
+			if (a2 == A_FREE) a->resubmits_left = 0;
+			p.act2[i]       = a2;
+			p.act2_at_us[i] = p.act_at_us[i] + (int) vf_below(r, 400) - 200;
+			if (p.act2_at_us[i] < 0) p.act2_at_us[i] = 0;
+		}
 		if (mixed_batch && a->kind == K_SLEEP) {
 			p.act[i]       = vf_chance(r, 2, 3) ? A_CANCEL : A_STOP;
 			p.act_at_us[i] = base_ms * 1000 + (int) vf_below(r, 2500);
@@ -931,70 +1446,67 @@ run_case(long idx, vf_rng *r)
 	// pre-start abort for some
 	for (int i = 0; i < cx->nrec; i++) {
 		if (p.act[i] == A_ABORT && p.act_at_us[i] == 0 && vf_chance(r, 1, 2)) {
-			atomic_store(&cx->rec[i].abort_issued, 1);
-			nng_aio_abort(cx->rec[i].aio, ABORT_CODE);
+			cx->rec[i].prestart_abort = true;
+			do_abort(&cx->rec[i]);
 			p.act[i] = A_NONE;
 		}
 	}
-	pthread_t ta, tc;
+	pthread_t ta, ta2, tc;
+	actorarg  aa1 = { &p, p.act, p.act_at_us }, aa2 = { &p, p.act2, p.act2_at_us };
+	bool      two = false;
+	for (int i = 0; i < cx->nrec; i++) two = two || p.act2[i] != A_NONE;
 	atomic_store(&cur_cx, cx);
 	pthread_create(&tc, NULL, completer_thread, &p);
 	for (int i = 0; i < cx->nrec; i++) submit(&cx->rec[i], false);
-	pthread_create(&ta, NULL, actor_thread, &p);
+	for (int i = 0; i < cx->nrec; i++) {
+		if (cx->rec[i].nocb) pthread_create(&cx->rec[i].waiter, NULL, waiter_thread, &cx->rec[i]);
+	}
+	pthread_create(&ta, NULL, actor_thread, &aa1);
+	if (two) pthread_create(&ta2, NULL, actor_thread, &aa2);
 	pthread_join(ta, NULL);
+	if (two) pthread_join(ta2, NULL);
 	pthread_join(tc, NULL);
 
 	// let natural completions / timeouts play out briefly, then end everything
 	vf_msleep(base_ms + 5);
+	finish_records(cx);
+	// an operation submitted after nng_aio_stop has returned is refused: one
+	// completion with NNG_ESTOPPED, and it has no effect (the provider is not
+	// started, no message is consumed - the conservation checks below run
+	// after this)
 	for (int i = 0; i < cx->nrec; i++) {
 		arec *a = &cx->rec[i];
-		a->resubmits_left = 0;
-		if (atomic_load(&a->freed)) continue;
-		atomic_store(&a->cancel_issued, 1);
-		nng_aio_cancel(a->aio);
-	}
-	if (cx->kind == K_PROVIDER) {
-		// a provider that was cancelled has finished; nothing else to do
-	}
-	for (int i = 0; i < cx->nrec; i++) {
-		arec *a = &cx->rec[i];
-		if (atomic_load(&a->freed)) continue;
-		// everything was cancelled: an operation that is still busy after
-		// 15 s of run time will never complete (its callback is lost);
-		// say so instead of hanging in nng_aio_wait
-		for (int k = 0; nng_aio_busy(a->aio); k++) {
-			if (k >= 15000) {
-				char key[96];
-				snprintf(key, sizeof(key), "C02/lost-completion/%s/never-completes", kind_names[a->kind]);
-				vf_violation(key, "%s: operation still pending 15 s after nng_aio_cancel (submissions %d, callbacks %d); its completion is lost", kind_names[a->kind], atomic_load(&a->n_submit), atomic_load(&a->n_cb));
-				int code = vf_finish();
-				_exit(code != 0 ? code : 1); // cannot wait for / free this aio
-			}
-			if ((k % 100) == 99) nng_aio_cancel(a->aio);
-			vf_msleep(1);
+		// (not on an aio that has reported NNG_ESTOPPED already: its user
+		// must not submit again, a debug build asserts that)
+		if (atomic_load(&a->freed) || !vf_chance(r, 1, 2) || atomic_load(&a->results[3]) != 0) continue;
+		int before = atomic_load(&a->n_cb);
+		atomic_store(&a->post_stop, 1);
+		submit(a, false);
+		// (a refused operation is over at once; one that is still pending
+		// after 10 s was started - end it, do not hang in nng_aio_wait)
+		for (int k = 0; nng_aio_busy(a->aio) && k < 10000; k++) vf_msleep(1);
+		if (nng_aio_busy(a->aio)) {
+			char key[96];
+			snprintf(key, sizeof(key), "C02/start-after-stop/%s/pending", kind_names[a->kind]);
+			vf_violation(key, "%s: an operation submitted after nng_aio_stop returned is still pending after 10 s: it was started", kind_names[a->kind]);
+			if (a->kind == K_PROVIDER) prov_complete(a);
+			do_cancel(a);
 		}
 		nng_aio_wait(a->aio);
-		check_not_running(a, "wait");
-		// a callback may have resubmitted between cancel and wait
-		for (int k = 0; k < 50 && nng_aio_busy(a->aio); k++) {
-			nng_aio_cancel(a->aio);
-			nng_aio_wait(a->aio);
-		}
-		atomic_store(&a->stop_issued, 1);
-		nng_aio_stop(a->aio);
-		atomic_store(&a->stop_returned, 1);
-		check_not_running(a, "stop");
-	}
-	// exactly once: every submission had its callback
-	for (int i = 0; i < cx->nrec; i++) {
-		arec *a = &cx->rec[i];
-		int   ns = atomic_load(&a->n_submit), nc = atomic_load(&a->n_cb);
-		if (nc != ns) {
+		if (a->nocb && atomic_load(&a->n_cb) == before) complete(a, false);
+		if (atomic_load(&a->n_cb) != before + 1) {
 			char key[96];
-			snprintf(key, sizeof(key), "C02/%s/%s", nc < ns ? "lost-completion" : "double-completion", kind_names[a->kind]);
-			vf_violation(key, "%s: %d submissions but %d callbacks after nng_aio_stop", kind_names[a->kind], ns, nc);
+			snprintf(key, sizeof(key), "C02/start-after-stop/%s/completions", kind_names[a->kind]);
+			vf_violation(key, "%s: an operation submitted after nng_aio_stop returned had %d completions when nng_aio_wait returned (expected 1)", kind_names[a->kind], atomic_load(&a->n_cb) - before);
 		}
-		vf_stat("operations", ns);
+		if (a->kind == K_PROVIDER) {
+			pthread_mutex_lock(&prov_mtx);
+			bool owned = a->prov_owned;
+			pthread_mutex_unlock(&prov_mtx);
+			if (owned) vf_violation("C02/start-after-stop/provider/started", "nng_aio_start returned true on an aio whose nng_aio_stop had returned");
+		}
+		vf_stat("start_after_stop", 1);
+		vf_stat("operations", 1);
 	}
 	// conservation for socket receives (pair1 is lossless): sent == received
 	// ok + still queued
@@ -1013,7 +1525,93 @@ run_case(long idx, vf_rng *r)
 		}
 		vf_stat("conservation_checked", 1);
 	}
+	// the same for the receive paths of PULL, PAIR0 and REP contexts (lossless
+	// towards a receiver that is slow): a message the peer's send accepted is
+	// delivered by exactly one successful receive or is still there afterwards
+	if ((cx->kind == K_CTXRECV || (cx->kind == K_PROTORECV && (cx->sub == PR_PULL || cx->sub == PR_PAIR0))) && !atomic_load(&cx->rec[0].close_issued)) {
+		nng_msg *m;
+		int      drained = 0, nsent = 0;
+		vf_quiesce(1, 500);
+		nng_socket_set_ms(cx->s, NNG_OPT_RECVTIMEO, 100);
+		while (nng_recvmsg(cx->s, &m, 0) == 0) {
+			uint32_t tag = 99;
+			if (nng_msg_len(m) >= 4) nng_msg_trim_u32(m, &tag);
+			if (tag < 64 && cx->recv_tag[tag] < 200) cx->recv_tag[tag]++;
+			nng_msg_free(m);
+			drained++;
+		}
+		for (int t = 0; t < 64; t++) {
+			nsent += cx->sent_tag[t];
+			if (cx->recv_tag[t] != cx->sent_tag[t]) {
+				char key[96];
+				snprintf(key, sizeof(key), "C02/recv-conservation/%s%s%s", kind_names[cx->kind], cx->kind == K_PROTORECV ? ":" : "", cx->kind == K_PROTORECV ? pr_names[cx->sub] : "");
+				vf_violation(key, "%s: message #%d was %s by the peer and received %d time(s) (successful receives + %d drained afterwards): a receive that reported an error consumed it, or it was delivered twice", kind_names[cx->kind], t, cx->sent_tag[t] ? "sent" : "not sent", cx->recv_tag[t], drained);
+				break;
+			}
+		}
+		vf_stat("recv_conservation2_checked", 1);
+		vf_stat("recv_conservation2_msgs", nsent);
+	}
+	// stream receive: the bytes the peer wrote are delivered by successful
+	// receives, in order, or are still unread
+	if (cx->kind == K_STREAMRECV && !atomic_load(&cx->rec[0].close_issued) && !atomic_load(&cx->stream_unknown)) {
+		nng_aio *a;
+		long     drained = 0;
+		arec    *r0 = &cx->rec[0];
+		nng_aio_alloc(&a, NULL, NULL);
+		for (;;) {
+			uint8_t buf[64];
+			nng_iov iov = { buf, sizeof(buf) };
+			nng_aio_set_iov(a, 1, &iov);
+			nng_aio_set_timeout(a, 100);
+			nng_stream_recv(cx->st_a, a);
+			nng_aio_wait(a);
+			if (nng_aio_result(a) != 0) break;
+			size_t n = nng_aio_count(a);
+			for (size_t j = 0; j < n; j++) {
+				if (buf[j] != (uint8_t) ((r0->rx_off + j) & 0xff)) {
+					vf_violation("C02/stream-recv-gap", "stream: byte %u at offset %zu while draining, expected %u (bytes were consumed by a receive that reported an error)", buf[j], r0->rx_off + j, (unsigned) ((r0->rx_off + j) & 0xff));
+					break;
+				}
+			}
+			r0->rx_off += n;
+			drained += (long) n;
+		}
+		nng_aio_free(a);
+		long sent = atomic_load(&cx->stream_sent), ok = atomic_load(&cx->stream_recv_ok);
+		if (sent != ok + drained) {
+			vf_violation("C02/stream-recv-conservation", "stream: peer wrote %ld bytes, successful receives delivered %ld, %ld were still unread (a receive that reported an error consumed bytes, or bytes were delivered twice)", sent, ok, drained);
+		}
+		vf_stat("stream_conservation_checked", 1);
+		vf_stat("stream_conservation_bytes", sent);
+	}
 	atomic_store(&cur_cx, NULL);
+	// PUSH / PAIR0 socket sends and REQ context sends: a send that completed
+	// with 0 reaches the peer exactly once, a send that failed never does
+	if (((cx->kind == K_PROTOSEND && (cx->sub == PS_PUSH || cx->sub == PS_PAIR0)) || cx->kind == K_REQSEND) && cx->connected && !atomic_load(&cx->rec[0].close_issued)) {
+		nng_msg *m;
+		int      nok = 0;
+		vf_quiesce(1, 500);
+		nng_socket_set_ms(cx->peer, NNG_OPT_RECVTIMEO, 100);
+		while (nng_recvmsg(cx->peer, &m, 0) == 0) protolog_add(cx, m);
+		for (int i = 0; i < cx->nrec; i++) {
+			int ns = atomic_load(&cx->rec[i].n_submit);
+			for (int q = 0; q < ns && q < 40; q++) {
+				int  st = cx->rec[i].send_rv[q], got = cx->got[i][q];
+				char key[96];
+				nok += st == 1;
+				if (st == 1 && got != 1) {
+					snprintf(key, sizeof(key), "C02/%s/%s%s%s", got == 0 ? "send-ok-but-lost" : "send-duplicated", kind_names[cx->kind], cx->kind == K_PROTOSEND ? ":" : "", cx->kind == K_PROTOSEND ? ps_names[cx->sub] : "");
+					vf_violation(key, "%s: send #%d of aio %d completed with 0 but the peer received it %d times", kind_names[cx->kind], q + 1, i, got);
+				} else if (st == 2 && got != 0) {
+					snprintf(key, sizeof(key), "C02/send-failed-but-delivered/%s%s%s", kind_names[cx->kind], cx->kind == K_PROTOSEND ? ":" : "", cx->kind == K_PROTOSEND ? ps_names[cx->sub] : "");
+					vf_violation(key, "%s: send #%d of aio %d completed with an error but the peer received the message %d time(s)", kind_names[cx->kind], q + 1, i, got);
+				}
+			}
+		}
+		vf_stat("send_conservation2_checked", 1);
+		vf_stat("send_conservation2_ok_sends", nok);
+	}
 	// conservation for sends (pair1 is lossless): a send that completed with 0
 	// is received exactly once, a send that failed is never received
 	if (cx->kind == K_SOCKSEND && !atomic_load(&cx->rec[0].close_issued)) {
@@ -1051,6 +1649,11 @@ run_case(long idx, vf_rng *r)
 		for (int k = 0; k < 7; k++) {
 			if (atomic_load(&a->results[k])) vf_class("%s/act=%s/outcome-slot%d/pert=%s", kind_names[a->kind], act_names[p.act[i]], k, pert == 0 ? "none" : pert == 1 ? "jitter" : vf_pt_name(target));
 		}
+		if (p.act2[i] != A_NONE && atomic_load(&a->n_cb) > 0) {
+			vf_class("%s/act=%s+%s", kind_names[a->kind], act_names[p.act[i]], act_names[p.act2[i]]);
+			vf_class("two-actions/%s+%s", act_names[p.act[i] < p.act2[i] ? p.act[i] : p.act2[i]], act_names[p.act[i] < p.act2[i] ? p.act2[i] : p.act[i]]);
+			vf_stat("two_action_records", 1);
+		}
 	}
 	// tear down
 	switch (cx->kind) {
@@ -1067,10 +1670,18 @@ run_case(long idx, vf_rng *r)
 		nng_socket_close(cx->peer);
 		break;
 	case K_REQSEND:
+	case K_REQRECV:
 	case K_CTXRECV:
 		for (int i = 0; i < cx->nrec; i++) nng_ctx_close(cx->ctx[i]);
 		nng_socket_close(cx->s);
 		nng_socket_close(cx->peer);
+		break;
+	case K_DEVICE:
+		// (the device closes its two sockets itself when it ends)
+		nng_socket_close(cx->dev1);
+		nng_socket_close(cx->dev2);
+		nng_socket_close(cx->dpeer1);
+		nng_socket_close(cx->dpeer2);
 		break;
 	case K_DIAL:
 		nng_socket_close(cx->s);
@@ -1078,6 +1689,7 @@ run_case(long idx, vf_rng *r)
 		break;
 	case K_STREAMDIAL:
 	case K_ACCEPT:
+	case K_STREAMSEND:
 	case K_STREAMRECV:
 		for (int i = 0; i < atomic_load(&cx->naccepted) && i < 64; i++) {
 			if (cx->accepted[i]) { nng_stream_close(cx->accepted[i]); nng_stream_stop(cx->accepted[i]); nng_stream_free(cx->accepted[i]); }
@@ -1109,6 +1721,209 @@ run_case(long idx, vf_rng *r)
 	(void) rep_reply_all;
 }
 
+// ====================================================================== grid
+// Enumerated, targeted scenarios around one expiry batch (mode "grid").
+// One expire queue.  Three aios are submitted in this order (= order in the
+// expire list): a gate G (provider; its cancel function keeps the expire
+// thread busy until the deadlines of the other two have certainly passed),
+// P (an operation with a real cancel function) and Q behind it.  When the
+// expire loop picks P (hook event, the logical anchor of the scenario) an
+// action {cancel, abort, stop} is issued on Q, i.e. while the loop is between
+// P and Q.  Three delays are active at the same time: d1 at "between two aios
+// of a batch" (when the loop reaches Q), d2 at "cancel function swapped out,
+// not yet called" (when the canceller calls Q's cancel function), d3 at
+// "before nni_aio_start takes the lock" (when the re-submission from Q's
+// callback becomes visible); they are permuted over a grid so that every order
+// of the three occurs.  Family 0: Q is a sleep (the loop completes it itself).
+// Family 1: Q is a provider operation that a completer finishes naturally at
+// a chosen instant ("the cancel lands on the next operation" lives here: an
+// early NNG_ETIMEDOUT through the expire loop is the known finding of DESIGN
+// 9.3, an NNG_ECANCELED from a cancel call still in progress is legitimate).
+// Oracles are the ones of every other case (cb, finish_records, hook keys).
+enum { GP_PROVIDER, GP_PAIR0RECV, GP_REPCTXRECV, GP_N };
+static const char *gp_names[] = { "provider", "pair0-recv", "rep-ctx-recv" };
+static const int grid3_us[3] = { 300, 5000, 10000 };
+static const int grid2_us[2] = { 300, 6000 };
+#define GRID_F0 (GP_N * 3 * 2 * 27)     // P kind x action x resubmission variant x d1 d2 d3
+#define GRID_F1 (3 * 2 * 2 * 2 * 8)     // action x action offset x completion instant x Q's cancel delay x d1 d2 d3
+#define GRID_TOTAL (GRID_F0 + GRID_F1)
+
+typedef struct {
+	casectx *cx;
+	arec    *q;
+	int      at_us; // after the anchor
+} gridcompleter;
+
+static void *
+grid_completer(void *arg)
+{
+	gridcompleter *g = arg;
+	uint64_t       a;
+	for (int k = 0; (a = atomic_load(&grid_anchor)) == 0 && k < 40000; k++) vf_usleep(50);
+	if (a == 0) return NULL;
+	int64_t wait = (int64_t) g->at_us - (int64_t) ((vf_now_ns() - a) / 1000);
+	if (wait > 0) vf_usleep((int) wait);
+	if (prov_complete(g->q)) vf_stat("grid_natural_completions", 1);
+	return NULL;
+}
+
+static void
+run_grid_case(long idx, vf_rng *r)
+{
+	casectx *cx  = calloc(1, sizeof(*cx));
+	long     g   = idx % GRID_TOTAL;
+	int      fam = g < GRID_F0 ? 0 : 1;
+	int      pk = GP_PROVIDER, act, resub = 0, d1, d2, d3, act_off = 0, nat_us = 0, cdq = 0;
+	static const int acts[3] = { A_CANCEL, A_ABORT, A_STOP };
+
+	if (fam == 0) {
+		long k = g;
+		d3 = grid3_us[k % 3]; k /= 3;
+		d2 = grid3_us[k % 3]; k /= 3;
+		d1 = grid3_us[k % 3]; k /= 3;
+		resub = (int) (k % 2); k /= 2;
+		act = acts[k % 3]; k /= 3;
+		pk = (int) (k % GP_N);
+	} else {
+		long k = g - GRID_F0;
+		d3 = grid2_us[k % 2]; k /= 2;
+		d2 = grid2_us[k % 2]; k /= 2;
+		d1 = grid2_us[k % 2]; k /= 2;
+		cdq = (k % 2) ? 5000 : 0; k /= 2;
+		nat_us = (k % 2) ? 6000 : 1000; k /= 2;
+		act_off = (k % 2) ? 3000 : 0; k /= 2;
+		act = acts[k % 3];
+	}
+	// (the seed moves every delay a little)
+	d1 += (int) vf_below(r, 400);
+	d2 += (int) vf_below(r, 400);
+	d3 += (int) vf_below(r, 400);
+	int T = (int) vf_range(r, 4, 7);
+
+	vf_pt_off();
+	vf_case_begin(idx, "grid family=%d P=%s Q=%s act=%s resub=%d d1=%dus d2=%dus d3=%dus act_off=%dus natural=%dus qcancel=%dus T=%dms", fam, gp_names[pk], fam == 0 ? "sleep" : "provider", act_names[act], resub, d1, d2, d3, act_off, nat_us, cdq, T);
+
+	cx->kind = K_PROTORECV;
+	cx->sub  = PR_PAIR0;
+	cx->nrec = 3;
+	if (pk == GP_PAIR0RECV) {
+		if (nng_pair0_open(&cx->s)) vf_harness_fail("open");
+	} else if (pk == GP_REPCTXRECV) {
+		if (nng_rep0_open(&cx->s) || nng_ctx_open(&cx->ctx[1], cx->s)) vf_harness_fail("open");
+	}
+	arec *G = &cx->rec[0], *P = &cx->rec[1], *Q = &cx->rec[2];
+	for (int i = 0; i < 3; i++) {
+		arec *a = &cx->rec[i];
+		a->idx = i;
+		a->cx  = cx;
+		if (nng_aio_alloc(&a->aio, cb, a) != 0) vf_harness_fail("aio alloc");
+		a->resubmit_timeout = 10000; // a re-submitted operation that times out early shows
+		atomic_store(&a->timeout_ms, -1);
+	}
+	G->kind = K_PROVIDER;
+	atomic_store(&G->timeout_ms, T);
+	P->kind = pk == GP_PROVIDER ? K_PROVIDER : pk == GP_PAIR0RECV ? K_PROTORECV : K_CTXRECV;
+	atomic_store(&P->timeout_ms, T + 3);
+	P->resubmits_left = resub ? 1 : 0;
+	if (fam == 0) {
+		Q->kind = K_SLEEP;
+		atomic_store(&Q->sleep_ms, T + 3);
+		Q->resubmits_left = 2;
+	} else {
+		Q->kind = K_PROVIDER;
+		atomic_store(&Q->timeout_ms, T + 3);
+		Q->resubmits_left  = 2;
+		Q->cancel_delay_us = cdq;
+	}
+	Q->dwell_us = vf_chance(r, 1, 2) ? (int) vf_range(r, 50, 300) : 0;
+
+	atomic_store(&grid_anchor, 0);
+	atomic_store(&grid_anchor_aio, (const void *) P->aio);
+	atomic_store(&cur_cx, cx);
+	// the gate opens when the clock is past both deadlines (each is at most
+	// "clock after both were submitted" + T + 3)
+	atomic_store(&G->gate_until, (uint64_t) nng_clock() + 1000);
+	submit(G, false);
+	submit(P, false);
+	submit(Q, false);
+	atomic_store(&G->gate_until, (uint64_t) nng_clock() + (uint64_t) T + 3);
+	vf_pt_target(NNI_VP_AIO_EXPIRE_BETWEEN, 1000, d1, d1);
+	vf_pt_target(NNI_VP_AIO_ABORT_UNLOCKED, 1000, d2, d2);
+	vf_pt_target(NNI_VP_AIO_START, 1000, d3, d3);
+
+	pthread_t     tc;
+	gridcompleter gc = { cx, Q, nat_us };
+	if (fam == 1) pthread_create(&tc, NULL, grid_completer, &gc);
+
+	// the anchor: the expire loop has picked P (it is about to call, or is
+	// inside, P's cancel function; Q is due as well)
+	uint64_t anchor = 0;
+	for (long k = 0; (anchor = atomic_load(&grid_anchor)) == 0 && k < 4000000; k++) {
+		if (k < 200000) sched_yield(); else vf_usleep(50);
+	}
+	uint64_t t_act = 0, t_ret = 0;
+	if (anchor == 0) {
+		vf_stat("grid_no_anchor", 1);
+	} else {
+		if (act_off) {
+			int64_t wait = (int64_t) act_off - (int64_t) ((vf_now_ns() - anchor) / 1000);
+			if (wait > 0) vf_usleep((int) wait);
+		}
+		t_act = vf_now_ns();
+		switch (act) {
+		case A_CANCEL: do_cancel(Q); break;
+		case A_ABORT: do_abort(Q); break;
+		default:
+			atomic_store(&Q->stop_issued, 1);
+			nng_aio_stop(Q->aio);
+			atomic_store(&Q->stop_returned, 1);
+			check_not_running(Q, "stop");
+			break;
+		}
+		t_ret = vf_now_ns();
+		vf_stat("grid_anchored", 1);
+	}
+	if (fam == 1) pthread_join(tc, NULL);
+	// let the three delays and the re-submissions play out
+	vf_usleep(d1 + d2 + d3 + 3000);
+	// what happened, in which order?  L: the loop reached Q (hook event; absent
+	// if Q had completed before), C: the canceller came back from Q's cancel
+	// function, R: the first re-submission of Q took effect (hook event)
+	if (anchor != 0) {
+		uint64_t tL = atomic_load(&Q->t_pick1), tR = atomic_load(&Q->t_begin2);
+		const char *order;
+		if (tL == 0) order = tR == 0 ? "C-only" : (t_ret < tR ? "C<R,no-L" : "R<C,no-L");
+		else if (tR == 0) order = tL < t_ret ? "L<C,no-R" : "C<L,no-R";
+		else if (tL < t_ret && t_ret < tR) order = "L<C<R";
+		else if (tL < tR && tR < t_ret) order = "L<R<C";
+		else if (t_ret < tL && tL < tR) order = "C<L<R";
+		else if (t_ret < tR && tR < tL) order = "C<R<L";
+		else if (tR < tL && tL < t_ret) order = "R<L<C";
+		else order = "R<C<L";
+		vf_class("grid/Q=%s/act=%s/order=%s", fam == 0 ? "sleep" : "provider", act_names[act], order);
+		vf_class("grid/P=%s/Q=%s/act=%s/resubP=%d", gp_names[pk], fam == 0 ? "sleep" : "provider", act_names[act], resub);
+		(void) t_act;
+	}
+	vf_pt_off();
+	atomic_store(&G->gate_until, 0);
+	finish_records(cx);
+	atomic_store(&cur_cx, NULL);
+	atomic_store(&grid_anchor_aio, NULL);
+	for (int i = 0; i < 3; i++) {
+		nng_aio_free(cx->rec[i].aio);
+		atomic_store(&cx->rec[i].freed, 1);
+	}
+	if (pk == GP_REPCTXRECV) nng_ctx_close(cx->ctx[1]);
+	if (pk != GP_PROVIDER) nng_socket_close(cx->s);
+	static casectx *prev;
+	if (prev) free(prev);
+	prev = cx;
+	vf_stat("cases", 1);
+	vf_stat("grid_cases", 1);
+	vf_watchdog(60);
+}
+
+
 int
 main(int argc, char **argv)
 {
@@ -1117,7 +1932,22 @@ main(int argc, char **argv)
 	vf_rng r;
 	static const int shapes[][3] = { { 2, 1, 1 }, { 16, 8, 4 }, { 4, 2, 2 }, { 2, 1, 1 } };
 	int inited = 0;
-	for (long i = 0; i < vf_cases; i++) {
+	bool grid = !strcmp(vf_mode, "grid");
+	long own = 0;
+	for (long i = 0; grid && i < vf_cases; i++) {
+		// enumerated: the workers split the grid
+		if (!vf_want_case(i) || (vf_only < 0 && (i % vf_nshards) != vf_shard)) continue;
+		if (!inited || (own % 40) == 0) {
+			if (inited) vf_nng_fini("C02");
+			vf_nng_init((own / 40) % 2 ? 4 : 2, 1, 1); // ONE expire queue
+			inited = 1;
+		}
+		own++;
+		vf_rng_seed(&r, vf_seed, (uint64_t) i);
+		case_no = i;
+		run_grid_case(i, &r);
+	}
+	for (long i = 0; !grid && i < vf_cases; i++) {
 		if (!vf_want_case(i)) continue;
 		if (!inited || (i % 40) == 0) {
 			if (inited) vf_nng_fini("C02");
